@@ -240,7 +240,7 @@ def parse_products_from_task_function(
             "return",
             task_produces,
         )
-        out = {"return": collected_products}
+        out["return"] = collected_products
 
     if sum((has_return, has_task_decorator)) == 2:  # noqa: PLR2004
         raise NodeNotCollectedError(_ERROR_MULTIPLE_TASK_RETURN_DEFINITIONS)
